@@ -197,8 +197,17 @@ def ref_name(rng):
     return name(rng)
 
 
+def yearish(rng):
+    """what may stand where a year is expected"""
+    return rng.choice(["1999", "2005", "1850", "2100", "1599", "1993-94", "1993\u201394", "1993-1994", "\uff11\uff19\uff19\uff19",
+                       "19999", "0000", "1999a", str(YEARNOW + 1)])
+
+
 def full_frag(rng):
     p = name(rng)
+    if rng.random() < 0.08:
+        # year between the name and the reporter
+        return f"{p} v. {name(rng)} ({yearish(rng)}) {num(rng)} {rep(rng)} {num(rng)}" + rng.choice(["", ", " + num(rng)])
     d = p if rng.random() < 0.05 else name(rng)          # same name on both sides ("Jones v. Jones")
     s = p + rng.choice([" v. ", " v ", " vs. ", " v. "]) + d + rng.choice([", ", " ", ",  ", ", "])
     s += f"{num(rng)} {rep(rng)} {num(rng)}"
@@ -207,8 +216,7 @@ def full_frag(rng):
     if rng.random() < 0.3:
         s += f", {num(rng)} {rep(rng)} {num(rng)}"
     if rng.random() < 0.6:
-        s += " (" + rng.choice(["", "4th Cir. ", "Pa. ", "D. Mass. "]) + rng.choice(
-            ["1999", "2005", "1850", "2100", "1599", "1993-94", str(YEARNOW + 1)]) + ")"
+        s += " (" + rng.choice(["", "4th Cir. ", "Pa. ", "D. Mass. "]) + yearish(rng) + ")"
     if rng.random() < 0.3:
         s += " (" + rng.choice(["holding x", "overruling Foo (Bar, J.)", "citing 1 U.S. 1",
                                  "quoting Roe, 410 U.S. at 120",
@@ -313,15 +321,75 @@ def punct_page_member(rng, short=True):
     return pre + page + post
 
 
+_hostile_member = {}
+# probe character -> the characters of the same acceptance class used when generating
+HOSTILE_GROUP_CHARS = {"²": ["²", "①", "¹", "⁵"],          # \w only: str.isdigit() is True, int() raises
+                       "٣": ["٣", "５", "０", "߁"],          # \d: decimal digits of other scripts, int() accepts
+                       "é": ["é", "Ⅷ", "ⅰ", "ß"],          # \w only: letters / numerals that are not digits
+                       "_": ["_", "__"]}
+
+
+def hostile_member(rng, short=False):
+    """A member of a citation pattern whose volume or page group contains a character that the pattern's
+    Unicode-aware classes accept but that is not an ASCII digit or letter ('100 N.Y.S.2d 12²'), found
+    by probing every pattern: substitute or append inside the group, keep what still matches as a whole
+    with that group changed. Stratified by acceptance class so that the rare ones are drawn as often."""
+    from vmon.rxgen import sample
+    key = bool(short)
+    if key not in _hostile_member:
+        found = {}
+        r0 = __import__("random").Random(777)
+        for e in DB.cit_extractors:
+            if bool(e.extra["short"]) != key or not (e.regex.startswith(PRE) and e.regex.endswith(POST)):
+                continue
+            body = e.regex[len(PRE):-len(POST)]
+            try:
+                rx = re.compile(body, e.flags)
+                core = sample(body, r0, e.flags, maxrep=2, ascii_only=True)
+            except Exception:
+                continue
+            m = rx.fullmatch(core)
+            if not m:
+                continue
+            for g in ("page", "volume"):
+                if g not in rx.groupindex or m.span(g) == (-1, -1):
+                    continue
+                a, b = m.span(g)
+                for ch in HOSTILE_GROUP_CHARS:
+                    for how, cand in (("append", core[:b] + ch + core[b:]), ("last", core[:b - 1] + ch + core[b:]),
+                                      ("first", core[:a] + ch + core[a:]), ("all", core[:a] + ch * (b - a) + core[b:])):
+                        m2 = rx.fullmatch(cand)
+                        if m2 and m2.group(g) != m.group(g) and ch in (m2.group(g) or ""):
+                            found.setdefault((ch, g), []).append((e, rx, core, how))
+                            break
+        _hostile_member[key] = found
+    found = _hostile_member[key]
+    if not found:
+        return member(rng, short)
+    ch0, g = rng.choice(sorted(found))
+    e, rx, core, how = rng.choice(found[(ch0, g)])
+    m = rx.fullmatch(core)
+    a, b = m.span(g)
+    for _ in range(8):
+        ch = rng.choice(HOSTILE_GROUP_CHARS[ch0])
+        cand = {"append": core[:b] + ch + core[b:], "last": core[:b - 1] + ch + core[b:],
+                "first": core[:a] + ch + core[a:], "all": core[:a] + ch * (b - a) + core[b:]}[
+                    how if rng.random() < 0.7 else rng.choice(["append", "last", "first", "all"])]
+        m2 = rx.fullmatch(cand)
+        if m2 and ch in (m2.group(g) or ""):
+            return cand
+    return core
+
+
 def frag(rng):
     r = rng.random()
     if r < 0.02:
         m = (punct_page_member if rng.random() < 0.6 else midpage_member)(rng, short=rng.random() < 0.5)
         return rng.choice(["", name(rng) + ", "]) + m + rng.choice([" because", " and again", ".", "; see", ", 7", " (holding x)", ". Id. at 3"])
     if r < 0.06:
-        m = member(rng)
+        m = member(rng) if rng.random() < 0.7 else hostile_member(rng, short=rng.random() < 0.3)
         return rng.choice(["", name(rng) + " v. " + name(rng) + ", ", name(rng) + ", "]) + m + rng.choice(
-            ["", " (1999)", ", 5", ". Id. at 3"])
+            ["", " (1999)", ", 5", ". Id. at 3", " (1999). Id. at " + num(rng), ". Id., at 12-13", "; " + name(rng) + ", supra, at 5"])
     if r < 0.28:
         return full_frag(rng)
     if r < 0.36:
@@ -350,7 +418,7 @@ def frag(rng):
         # a reference whose pin-cite digits are also the volume of a following citation
         return f"{ref_name(rng)} at {num(rng)} {rep(rng)}{rng.choice([',', ''])} {num(rng)}"
     if r < 0.82:
-        return f"In re {name(rng)} ({rng.choice(['1999', '2010', '2100'])}) {num(rng)} {rep(rng)} {num(rng)}"
+        return f"In re {name(rng)} ({yearish(rng)}) {num(rng)} {rep(rng)} {num(rng)}"
     if r < 0.86:
         return f"{num(rng)} {rng.choice(['Minn. L. Rev.', 'Harv. L. Rev.', 'Yale L.J.'])} {rng.choice([num(rng), '___'])}, {num(rng)} ({rng.choice(['1990', '2020'])})"
     if r < 0.89:
@@ -383,7 +451,9 @@ def mutate(s, rng, k=None, classes=None, rec=None):
 def dense_doc(rng, hostile=0.5, rec=None, classes=None, maxfrag=8):
     del _recent[:]
     parts = [frag(rng) for _ in range(rng.randint(1, maxfrag))]
-    seps = [rng.choice([" ", ". ", "; ", ", ", " ", "\n", " (", ") "]) for _ in parts]
+    seps = [rng.choice([" ", ". ", "; ", ", ", " ", "\n", " (", ") ", "\n\n", " Id. "]) for _ in parts]
+    if rng.random() < 0.25:
+        seps[-1] = ""            # the document ends with the last character of a citation
     s = "".join(p + q for p, q in zip(parts, seps))
     if rng.random() < hostile:
         s = mutate(s, rng, classes=classes, rec=rec)
